@@ -571,7 +571,7 @@ func minimiseAndConfirm(dir string, spec propSpec, prop string, f *failure, know
 	min := filepath.Join(dir, fmt.Sprintf("min-%d.jsonl", n))
 	eng := f.Engine
 	if eng == "alloc" {
-		path = filepath.Join(verifDir, "replays", fmt.Sprintf("%s-%d-%d.json", prop, f.Seed, f.Index))
+		path = filepath.Join(verifDir, "replays", fmt.Sprintf("%s-%d-%d-%d.json", prop, f.Seed, f.Index, n))
 		bb, _ := json.MarshalIndent(map[string]any{"property": prop, "engine": eng, "index": f.Index, "seed": f.Seed, "outcome": f.Outcome, "scenario": f.Scenario}, "", " ")
 		os.WriteFile(path, bb, 0o644)
 		return path, reproduces(dir, spec, path), true
